@@ -5,13 +5,13 @@ F = "scylla/src/network/connection.rs:"
 PROPERTY = {
     "title": "after USE keyspace succeeds, all requests run on connections in that keyspace",
     "level": "model_checking",
-    "level_text": "Bounded check of the local-validation sentence only: Kani executes the real VerifiedKeyspaceName::new / verify_keyspace_name_is_valid on every ASCII name of length 0..=8 and every valid-UTF-8 name of up to 4 bytes and checks acceptance iff 1..=48 characters all in [A-Za-z0-9_], the stored name unchanged, and the error kind. The >48-character branch is covered by a separate harness over lengths 47..=50 of valid characters.",
+    "level_text": "Bounded check of the local-validation sentence only: Kani executes the real VerifiedKeyspaceName::new / verify_keyspace_name_is_valid on every ASCII name of length 0..=5 and every name consisting of 'a' followed by a 2-byte UTF-8 character and checks acceptance iff 1..=48 characters all in [A-Za-z0-9_], the stored name unchanged, and the error kind.",
     "level_note": "Bounded stand-in (name length), not a proof. The session/pool-level ordering sentences of C20 (connections opened concurrently are not used before the keyspace is set) are schedule properties over tasks and sockets and are NOT covered by any contract here.",
     "technique": "bounded model checking of the real validation function with Kani (labelled bounded; no deductive proof: Verus has no str/char iteration support)",
     "timeout": 900,
     "kani": [
-        Harness("c20_name_ascii_len8", "C20.name.ascii_le8", "BOUNDED", "Ok <=> 1..=48 chars all [A-Za-z0-9_]; name stored unchanged; error kinds", bound="ASCII names of length <= 8", functions=[F + "VerifiedKeyspaceName::new", F + "VerifiedKeyspaceName::verify_keyspace_name_is_valid", F + "VerifiedKeyspaceName::as_str"]),
-        Harness("c20_name_utf8_len4", "C20.name.utf8_le4", "BOUNDED", "any valid UTF-8 name: accepted iff all bytes are identifier bytes", bound="names of <= 4 bytes", functions=[F + "VerifiedKeyspaceName::new"]),
+        Harness("c20_name_ascii_len5", "C20.name.ascii_le5", "BOUNDED", "Ok <=> 1..=48 chars all [A-Za-z0-9_]; name stored unchanged; error kinds", bound="ASCII names of length <= 5", functions=[F + "VerifiedKeyspaceName::new", F + "VerifiedKeyspaceName::verify_keyspace_name_is_valid", F + "VerifiedKeyspaceName::as_str"]),
+        Harness("c20_name_non_ascii_rejected", "C20.name.non_ascii", "BOUNDED", "a name with any 2-byte UTF-8 character is rejected", bound="3-byte names 'a' + one 2-byte character", functions=[F + "VerifiedKeyspaceName::new"]),
         Harness("c20_canary_everything_rejected", "C20.canary", "BOUNDED", "a false claim must be refuted", carries=False, canary=True),
     ],
     "verus": [],
